@@ -11,7 +11,7 @@ import (
 func init() {
 	props["C13"] = &propCheck{
 		lean:    []string{"JSight.Props.C13"},
-		exes:    []string{"jsight-model"},
+		exes:    []string{"jsight-model", "jsight-build"},
 		run:     runC13,
 		assume:  []string{"the binding of declared Path schemas to interactions is decided by search against the declarative binding; the theorems cover the (prefix, name) split and its checks"},
 		rule:    "path strings: all strings over {/,{,},a,b} up to the length bound + random; a case is non-trivial when the path has at least one {..} segment; path trees: generated documents with shared prefixes, parameters at any depth, Path under URL or method, and faulty variants",
@@ -231,8 +231,13 @@ func expectedPathVars(res []pathRes) map[string][][2]string {
 func c13Docs(ctx *Ctx, r *Rng) {
 	n := ctx.Budget(1500, 100000)
 	cases := 0
+	var all [][]byte
+	defer func() {
+		bindCorrespondence(ctx, all, "path trees and their faulty variants")
+	}()
 	for i := 0; i < n && len(ctx.Violations) < 10; i++ {
 		res, doc := pathTreeDoc(r)
+		all = append(all, []byte(doc))
 		run := RunProject(SingleFile([]byte(doc)), false)
 		cases++
 		ctx.Cov.Count([]byte(doc), strings.Contains(doc, "{"))
@@ -289,6 +294,9 @@ func c13Docs(ctx *Ctx, r *Rng) {
 		}
 		faults = append(faults, fv{"empty {} in a path", doc + "GET /e/{}\n  200 any\n"}, fv{"repeated {name} in one path", doc + "GET /r/{k}/s/{k}\n  200 any\n"})
 		for _, f := range faults {
+			if i%4 == 0 {
+				all = append(all, []byte(f.doc))
+			}
 			fr := RunProject(SingleFile([]byte(f.doc)), false)
 			cases++
 			ctx.Cov.Hit("fault: " + f.kind)
